@@ -66,7 +66,24 @@ var modelled = []string{"WithBroadcast", "WithClientIP", "WithDNS", "WithDomainS
 
 func drawMod(r *rand.Rand) mod {
 	be32 := func(v uint32) []byte { return []byte{byte(v >> 24), byte(v >> 16), byte(v >> 8), byte(v)} }
-	switch r.IntN(24) {
+	switch r.IntN(26) {
+	case 24, 25: // an option copied from another packet (a server echoing what a relay sent): overrides like any other modifier
+		code := []byte{82, 61, 54, 55, 12, 60}[r.IntN(6)]
+		donor := &dhcpv4.DHCPv4{Options: dhcpv4.Options{}}
+		val := []byte("copied-" + string(rune('a'+r.IntN(26))))
+		if code == 54 {
+			val = []byte{10, 9, 8, byte(r.UintN(256))}
+		}
+		if r.IntN(5) != 0 {
+			donor.Options[code] = val
+		} else {
+			val = nil // the donor lacks the option: nothing is copied
+		}
+		return mod{"WithOptionCopied", dhcpv4.WithOptionCopied(donor, dhcpv4.GenericOptionCode(code)), func(m *ref4.P4) {
+			if val != nil {
+				m.Opts[code] = append([]byte{}, val...)
+			}
+		}, fmt.Sprintf("copied %d=%x", code, val)}
 	case 0:
 		var x dhcpv4.TransactionID
 		for i := range x {
